@@ -24,7 +24,7 @@ func init() {
 		return f != nil && (f.Kind == "nonconformant" || f.Kind == "abstract-fails" || f.Kind == "safe-fails") && f.Data["cause"] == causeUnknownSetToList
 	})
 	facet.RegisterKnown("c08EmptyCollectionNestedPlaceholder", func(facetName string, raw json.RawMessage, f *facet.Failure) bool {
-		return f != nil && (f.Kind == "dynamic-leak" || f.Kind == "admits/type") && f.Data["cause"] == causeEmptyCollection
+		return f != nil && (f.Kind == "dynamic-leak" || f.Kind == "admits/type" || f.Kind == "abstract-fails") && f.Data["cause"] == causeEmptyCollection
 	})
 	facet.RegisterKnown("c08NullMemberMarksDropped", causeIs("idempotent-changed", causeNullMemberMarks))
 	facet.RegisterKnown("c08UnknownMapOptionalPlaceholder", func(facetName string, raw json.RawMessage, f *facet.Failure) bool {
